@@ -1035,8 +1035,10 @@ def trace_calls(body, names, rules_log):
         toks = full_tokens(body)
         sig = [i for i, t in enumerate(toks) if t.kind not in ("ws", "comment")]
         hit = None
+        plain = [n for n in names if "." not in n]
+        qual = {n.split(".")[1]: n.split(".")[0] for n in names if "." in n}
         for q, i in enumerate(sig):
-            if toks[i].kind == "ident" and toks[i].text in names and q >= 2 and toks[sig[q - 1]].text == "." \
+            if toks[i].kind == "ident" and (toks[i].text in plain or toks[i].text in qual) and q >= 2 and toks[sig[q - 1]].text == "." \
                     and q + 1 < len(sig) and toks[sig[q + 1]].text == "(":
                 # already wrapped?  (preceded by `let r24_v = ` at chain start is hard to see: use a marker comment)
                 close = match_close(toks, sig[q + 1])
@@ -1074,7 +1076,15 @@ def trace_calls(body, names, rules_log):
             raise ExtractError("R24 refused: cannot delimit the receiver of `.%s(`" % toks[sig[q]].text)
         a = sig[start]
         expr = "".join(t.text for t in toks[a:close + 1])
-        idx = names.index(toks[sig[q]].text)
+        mname = toks[sig[q]].text
+        if mname in qual and toks[sig[q - 2]].kind == "ident" and toks[sig[q - 2]].text == qual[mname]:
+            idx = names.index(qual[mname] + "." + mname)      # a receiver-qualified event, e.g. `ready_tx.send`
+        elif mname in plain:
+            idx = names.index(mname)
+        else:
+            # qualified name only, other receiver: not an event; mark so it is not looked at again
+            body = "".join(t.text for t in toks[:close + 1]) + "/*r24*/" + "".join(t.text for t in toks[close + 1:])
+            continue
         # the marker keeps the rewritten call from being matched again (it sits right after the inner call)
         inner = "".join(t.text for t in toks[a:close + 1]) + "/*r24*/"
         body = ("".join(t.text for t in toks[:a]) + "({ let r24_v = " + inner + "; proof { r24_trace = r24_trace.push(%dint); } r24_v })" % idx
